@@ -1045,8 +1045,8 @@ class C06(Check):
                      {"write": [], "drain": [0], "rl": [0, 1], "wl": []}, {"write": [1], "drain": [], "rl": [1], "wl": [0, 1]}]})
         cases += list(scope(CORE, 2, 2))                                         # 111^2
         cases += list(scope([a for a in ALPHA if a not in DROP], 3, 1, label="scope3x1"))     # 21^3 (all 26^3 in the thorough tier)
-        for alpha in ([NUM0, SLEEP4], [SEL_R0, ["again", -1, True]]):
-            cases += list(scope(alpha, 3, 3, label="scope3x3"))                  # 15^3 each
+        cases += list(scope([NUM0, SLEEP4], 3, 3, label="scope3x3"))             # 15^3
+        cases += list(scope([SEL_R0, ["again", -1, True]], 3, 2, label="scope3x2"))     # 7^3 (15^3 in the thorough tier)
         cases += list(lottery_cases([NUM0, SLEEP4], 3, 2))                       # 7^3 x 5
         cases += list(lottery_cases([NUM0, ["again", -1, True], RAISE], 2, 2))   # 13^2 x 5
         conv_progs = [[["select", [0], [2], [], 12], ["select", [], None, [], 4], ["select", [1], [], [0], 8], ["sleep", 4], ["num", 8],
@@ -1095,6 +1095,8 @@ class C06(Check):
             for c in scope(ALPHA, 3, 1, label="scope3x1-full"):                  # 26^3
                 yield c
             for c in scope([NUM0, RAISE], 3, 3, label="scope3x3"):               # 15^3
+                yield c
+            for c in scope([SEL_R0, ["again", -1, True]], 3, 3, label="scope3x3"):     # 15^3
                 yield c
             for _ in range(2):                                                   # all 3 tasks x <=3 yields over random 3-symbol alphabets
                 alpha = rng.sample(ALPHA, 3)
